@@ -5,6 +5,17 @@ namespace Lifecycle
 /-- every channel is a thread queue (`put` never blocks) -/
 def Unbounded (net : Net) : Prop := ∀ c, capOf net c = none
 
+theorem unbounded_of_all (net : Net) (h : net.caps.all (fun c => c.isNone) = true) : Unbounded net := by
+  intro c
+  simp only [capOf]
+  cases hc : net.caps[c]? with
+  | none => rfl
+  | some o =>
+    have := List.all_eq_true.mp h o (List.mem_of_getElem? hc)
+    cases o with
+    | none => rfl
+    | some k => simp at this
+
 theorem lt_of_getElem? {α : Type} {l : List α} {n : Nat} {x : α} (h : l[n]? = some x) : n < l.length := by
   rcases Nat.lt_or_ge n l.length with h1 | h1
   · exact h1
